@@ -2947,6 +2947,25 @@ impl<T: Storage> Raft<T> {
         self.uncommitted_state.uncommitted_size
     }
 
+    /// Verification hook: read-only view of private fields
+    /// `(last_log_tail_index, max_uncommitted_size, min_election_timeout,
+    /// max_election_timeout, skip_bcast_commit, batch_append,
+    /// disable_proposal_forwarding, max_committed_size_per_ready)`.
+    #[cfg(tikv_raft_rs_verif)]
+    #[allow(clippy::type_complexity)]
+    pub fn verif_view(&self) -> (u64, usize, usize, usize, bool, bool, bool, u64) {
+        (
+            self.uncommitted_state.last_log_tail_index,
+            self.uncommitted_state.max_uncommitted_size,
+            self.min_election_timeout,
+            self.max_election_timeout,
+            self.skip_bcast_commit,
+            self.batch_append,
+            self.disable_proposal_forwarding,
+            self.max_committed_size_per_ready,
+        )
+    }
+
     /// A Raft leader allocates a vector with capacity `max_inflight_msgs` for every peer.
     /// It takes a lot of memory if there are too many Raft groups. `maybe_free_inflight_buffers`
     /// is used to free memory if necessary.
